@@ -9,7 +9,8 @@ Conformance  : (T) traces of every fixed-step family (explicit, splitting, impli
                step sequences and the final states (rounding level for fixed-step, tolerance level for adaptive).
 """
 import random
-from vf import integreplay, modelreplay, gen, odecore, core, scen, twins
+import numpy as np
+from vf import integreplay, modelreplay, gen, odecore, core, scen, twins, num
 
 LEVEL = "model_checking"
 PREFIX = ("C04.",)
@@ -97,6 +98,58 @@ def _run_twin(job):
     return ra, rb
 
 
+def _switch_job(job):
+    """spec/AdaptSwitch.tla on a real integrator object: the read-back of is_adaptive after every assignment, then one call with a step far too
+    long for the tolerances (pendulum, omega = 10, h = 4): does the object take the step it is given?"""
+    import desolver as de
+    name, hist = job
+    cls = getattr(de.integrators, name)
+    out = {"name": name, "hist": [bool(b) for b in hist], "read": [], "tookRequested": True, "ran": False,
+           "hasEstimator": bool(hasattr(cls, "tableau_final") and np.asarray(cls.tableau_final).shape[0] == 2), "explicit": True, "mustShorten": False}
+    try:
+        integ = cls((2,), dtype=np.float64, rtol=1e-8, atol=1e-8)
+        out["explicit"] = not bool(integ.is_implicit)
+        out["read"].append(bool(integ.is_adaptive))
+        for b in hist:
+            integ.is_adaptive = bool(b)
+            out["read"].append(bool(integ.is_adaptive))
+        out["mustShorten"] = bool(out["explicit"] and out["hasEstimator"])
+        h = np.float64(4.0)
+        try:
+            r = integ(de.DiffRHS(lambda t, y: np.array([y[1], -100.0 * np.sin(y[0])])), np.float64(0.0), np.array([1.0, 0.0]), {}, h)
+            out["tookRequested"] = bool(num.frac(r[1][0]) == num.frac(h))
+        except de.exception_types.FailedToMeetTolerances:
+            out["tookRequested"] = False
+        out["ran"] = True
+    except Exception as e:      # noqa
+        out["error"] = "%s: %s" % (type(e).__name__, str(e)[:120])
+    return out
+
+
+def _switch_phase(run):
+    import desolver as de
+    gen = run.generate("AdaptSwitch")
+    if run.tier == "thorough":
+        core.model_check("AdaptSwitch", "AdaptSwitch_devInverted", expect_violation="SwitchingOffSwitchesOff")
+    names = [c.__name__ for c in de.integrators.explicit_methods() + de.integrators.implicit_methods()]
+    jobs = [(n, h) for n in names for h in gen["histories"]]
+    obs = core.pool_map(_switch_job, jobs, chunksize=16)
+    crashed = [o for o in obs if not o["ran"]]
+    if crashed:
+        raise core.MachineryError("adaptivity switch job failed: %s %s" % (crashed[0]["name"], crashed[0].get("error")))
+    for k, o in enumerate(obs):
+        o["id"] = k
+        run.evaluations += 1
+        if o["hist"]:
+            run.nontrivial.add(("switch", o["name"], str(o["hist"])))
+    v = run.judge("AdaptSwitch", {"cases": [{k: o[k] for k in ("id", "hasEstimator", "explicit", "hist", "read", "tookRequested", "mustShorten")} for o in obs]}, name="C04_switch")
+    run.traces += len(obs)
+    for b in v["bad"]:
+        o = obs[b["id"]]
+        if b["clause"].startswith("C04."):
+            run.violation(b["clause"], "switch %s assignments=%s" % (o["name"], o["hist"]), {k: o[k] for k in ("read", "tookRequested", "hasEstimator", "explicit")}, replay=None)
+
+
 def check(run, replay=None):
     run.rule = ("traces: fixed-step family x placement of (t0, tf) (10 patterns) x dt (span/8, span/3, span) x call sequence; "
                 "twins: family x span x problem x {shift by 8, -16, 1/2; reflection}; non-trivial = at least two full steps "
@@ -124,6 +177,7 @@ def check(run, replay=None):
                              ("LandingStepCarriedOver", "FixedDtKeptBetweenSteps")):
                 core.model_check("OdeSystemMC", "OdeSystem_dev" + dev, expect_violation=inv)
             run.notes["deviation_selftest"] = "absFinalClamp, dirFromSystemSpan, clampAdoptsDt, landingStepCarriedOver each violate their guarding invariant"
+        _switch_phase(run)
         scs = scenarios(run.tier, run.seed)
         jobs = twin_cases(run.tier, run.seed)
     if scs:
